@@ -344,6 +344,50 @@ def main(argv):
                 if r != "True":
                     ctx.violation("client not usable after the fault plan was exhausted", dict(case, final=r))
                 audit(ctx, world, client, case, "at the end")
+    # ---- part 3: calls that fail because of what the server ANSWERED (error lines, garbage, truncated replies), on pipelined commands whose
+    #      remaining replies arrive later: whatever the client does with the connection, the next calls work ----
+    from faultrun import MUTATIONS, Scripted
+    rng = ctx.rng
+    multi = [{"op": "set_many", "items": [("a", b"1"), ("b", b"2"), ("c", b"3")], "nr": False}, {"op": "delete_many", "ks": ["a", "b", "c"], "nr": False},
+             {"op": "get_many", "ks": ["a", "b"]}, {"op": "set", "k": "a", "v": b"1", "nr": False}, {"op": "incr", "k": "a", "d": 1, "nr": False},
+             {"op": "gets_many", "ks": ["a", "b"]}, {"op": "touch", "k": "a", "e": 0, "nr": False}]
+    for cls in ("Client",):          # (a HashClient answers the next call from its failover bookkeeping: C13's subject)
+        for call in multi:
+            for mut in MUTATIONS[1:]:
+                for chunkmode in ("bytes", "rand", "one"):
+                    for only in (None, 0, 1):
+                        S = Scripted(rng)
+                        if cls == "Client":
+                            client = Client(("h", 1), socket_module=S.sm, default_noreply=False)
+                            inner = lambda: client
+                        else:
+                            from pymemcache.client.hash import HashClient
+                            client = HashClient([("h", 1)], socket_module=S.sm, default_noreply=False, retry_attempts=5)
+                            inner = lambda: next(iter(client.clients.values()))
+                        S.begin_call(0, {})
+                        run_call(client, {"op": "set", "k": "a", "v": b"5", "nr": False})
+                        run_call(client, {"op": "set", "k": "b", "v": b"6", "nr": False})
+                        first_sock = inner().sock
+                        sc = {"mutation": mut, "chunk": chunkmode}
+                        if only is not None:
+                            sc["only_exchange"] = only
+                        S.begin_call(1, sc)
+                        r = run_call(client, dict(call))
+                        case = {"class": cls, "call": call["op"], "reply_mutation": mut, "chunking": chunkmode, "result": r[:60]}
+                        ctx.case(("reply-fail", cls, call["op"], mut, chunkmode, only))
+                        ctx.count("reply-level-failures")
+                        if not r.startswith("exc:") or r == "exc:IllegalInput":
+                            continue
+                        # (a call that failed on the CONTENT of a completely read reply may keep its connection - e.g. incr answered with a
+                        # non-number; whether anything is left unread on it is C01's subject.  What C06 promises is that the next call works.)
+                        kept = inner().sock is not None
+                        nled = len(S.world.ledger)
+                        S.begin_call(2, {})
+                        r2 = run_call(client, {"op": "set", "k": "z", "v": b"z", "nr": False})
+                        r3 = run_call(client, {"op": "get", "k": "z"})
+                        if (r2, r3) != ("True", "b:7a") or (not kept and not any(e[0] == "connect" for e in S.world.ledger[nled:])):
+                            ctx.violation("after a call failed on the server's answer the next calls did not work (on a fresh connection, or on the kept one)",
+                                          dict(case, connection_kept=kept, next_calls=[r2, r3]), tags=["reply-level"])
     ctx.assumptions = ["OS-level descriptors are modelled by ids in a ledger; close() counts as closed even if it raises",
                        "faults are Exception-class (BaseException is C10)"]
     ctx.finish()
